@@ -2182,17 +2182,36 @@ static int add_mapping_entry(vnaproperty_yaml_t *vymlp, int t_map,
 }
 
 /*
- * _vnaproperty_yaml_import: import properties from the given YAML document
+ * yaml_import_path_t: chain of the YAML nodes currently being imported
+ */
+typedef struct yaml_import_path {
+    const yaml_node_t *yip_node;
+    const struct yaml_import_path *yip_parent;
+} yaml_import_path_t;
+
+/*
+ * yaml_import: import properties from the given YAML node
  *   @vymlp:    common argument structure
  *   @rootptr:  address of property tree root
- *   @vp_node:  yaml node cast to void pointer
+ *   @node:     yaml node
+ *   @parent:   chain of enclosing nodes (to detect recursive aliases)
  */
-int _vnaproperty_yaml_import(vnaproperty_yaml_t *vymlp,
-	vnaproperty_t **rootptr, void *vp_node)
+static int yaml_import(vnaproperty_yaml_t *vymlp,
+	vnaproperty_t **rootptr, yaml_node_t *node,
+	const yaml_import_path_t *parent)
 {
     yaml_document_t *document = vymlp->vyml_document;
-    yaml_node_t *node = vp_node;
+    yaml_import_path_t self = { node, parent };
 
+    for (const yaml_import_path_t *yip = parent; yip != NULL;
+	    yip = yip->yip_parent) {
+	if (yip->yip_node == node) {
+	    _vnaproperty_yaml_error(vymlp, VNAERR_SYNTAX,
+		    "%s (line %ld) error: recursive alias",
+		    vymlp->vyml_filename, node->start_mark.line + 1);
+	    goto out;
+	}
+    }
     switch (node->type) {
     case YAML_SCALAR_NODE:
 	/*
@@ -2250,7 +2269,7 @@ int _vnaproperty_yaml_import(vnaproperty_yaml_t *vymlp,
 			    vymlp->vyml_filename, strerror(errno));
 		    goto out;
 		}
-		if (_vnaproperty_yaml_import(vymlp, subtree, value) == -1) {
+		if (yaml_import(vymlp, subtree, value, &self) == -1) {
 		    goto out;
 		}
 	    }
@@ -2281,7 +2300,7 @@ int _vnaproperty_yaml_import(vnaproperty_yaml_t *vymlp,
 			    vymlp->vyml_filename, strerror(errno));
 		    goto out;
 		}
-		if (_vnaproperty_yaml_import(vymlp, subtree, value) == -1) {
+		if (yaml_import(vymlp, subtree, value, &self) == -1) {
 		    goto out;
 		}
 	    }
@@ -2294,6 +2313,18 @@ int _vnaproperty_yaml_import(vnaproperty_yaml_t *vymlp,
 
 out:
     return -1;
+}
+
+/*
+ * _vnaproperty_yaml_import: import properties from the given YAML document
+ *   @vymlp:    common argument structure
+ *   @rootptr:  address of property tree root
+ *   @vp_node:  yaml node cast to void pointer
+ */
+int _vnaproperty_yaml_import(vnaproperty_yaml_t *vymlp,
+	vnaproperty_t **rootptr, void *vp_node)
+{
+    return yaml_import(vymlp, rootptr, (yaml_node_t *)vp_node, NULL);
 }
 
 /*
